@@ -501,6 +501,9 @@ pub struct Trace {
     pub health: Vec<(usize, bool)>,
     /// root directory of each entity's filestore (valid until the next scenario of this worker)
     pub roots: Vec<PathBuf>,
+    /// transaction tasks still alive at the final probes (hook H4) minus the transactions the daemons still answer for:
+    /// tasks the daemon has lost track of (no PDU and no user request can reach them any more)
+    pub orphan_tasks: i64,
 }
 
 pub const PDU_BUDGET: usize = 10_000;
@@ -650,6 +653,7 @@ pub fn run_scenario(sc: &Scenario) -> Trace {
 
 async fn run_async(sc: &Scenario, roots: Vec<PathBuf>) -> Trace {
     let t0 = Instant::now();
+    let live_base = cfdp_daemon::verif::live_transactions();
     let n = sc.entities.len();
     let shared = Arc::new(Mutex::new(Shared {
         trace: Trace {
@@ -801,6 +805,8 @@ async fn run_async(sc: &Scenario, roots: Vec<PathBuf>) -> Trace {
                     let idx = g.trace.dgrams.len();
                     let pdu = PDU::decode(&mut sub.bytes.as_slice()).ok();
                     let mut bytes = sub.bytes;
+                    // two corruptions of the same bit restore the datagram: "corrupted" is judged on the bytes, after all faults
+                    let pristine = if sc.faults.iter().any(|f| matches!(f.kind, FaultKind::Corrupt { .. })) { Some(bytes.clone()) } else { None };
                     let mut fate = Fate::Delivered(vec![]);
                     let mut corrupted = false;
                     let is_healed = healed_c.load(AtomicOrdering::Relaxed);
@@ -846,6 +852,9 @@ async fn run_async(sc: &Scenario, roots: Vec<PathBuf>) -> Trace {
                                 }
                             }
                         }
+                    }
+                    if let Some(p) = &pristine {
+                        corrupted = *p != bytes;
                     }
                     if !sc.entities[to].present && matches!(fate, Fate::Delivered(_)) {
                         fate = Fate::Sink;
@@ -1067,6 +1076,13 @@ async fn run_async(sc: &Scenario, roots: Vec<PathBuf>) -> Trace {
         }
     }
     break;
+    }
+    {
+        // let tasks that have just ended unwind, then compare
+        tokio::task::yield_now().await;
+        let mut g = shared.lock().unwrap();
+        let answered = g.trace.probes.iter().filter(|p| p.alive).count() as i64;
+        g.trace.orphan_tasks = (cfdp_daemon::verif::live_transactions() - live_base) - answered;
     }
     // health check: heal the link, each present daemon must still serve a fresh Put
     if sc.health_check {
